@@ -179,14 +179,13 @@ class Interp:
             return Box(t)
         if kind.ty == 'obj':
             so = SymObj(t, kind.cls, self.state)
-            a0 = self.state.ghost.get('alloc0')
-            if a0 is not None:
-                # references held by the pre-state are older than anything allocated during the call
-                hit = any(t.eq(r) for r in self.state.allocated)
-                if not hit:
-                    self.ctx.assume(z3.And(t > 0, z3.Or(t < a0, z3.Or([t == r for r in self.state.allocated]) if self.state.allocated else False)))
+            a = self.state.ghost.get('alloc')
+            if a is not None:
+                # every reference stored anywhere was allocated before now: it is below the allocation counter
+                self.ctx.assume(z3.And(t > 0, t < a))
             return so
         if kind.ty == 'enum':
+            kind.cls.ensure_evaluated()
             return Obj(kind.cls, {'value': Sym(t, 'int')})
         return ops.concretize(Sym(t, kind.ty, kind.cls))
 
@@ -715,6 +714,8 @@ class Interp:
                'LShift': '__lshift__', 'RShift': '__rshift__', 'Pow': '__pow__'}
 
     def binop(self, opname, a, b):
+        if opname == 'Mult' and isinstance(a, PyList) and len(a.items) == 1 and ops.const_int(b) is None and ops.pytype(b) == 'int':
+            return self.lib.repeat_list(self, a.items[0], b)
         ca = self.class_of(a)
         if ca is not None:
             m = ca.find_method(self._DUNDER[opname])
@@ -986,7 +987,7 @@ class Interp:
             except _Return as r:
                 rv = r.value
             if is_generator:
-                return PyList(fr.yields)
+                return fr.yields if isinstance(fr.yields, SymSeq) else PyList(fr.yields)
             return rv
         finally:
             self.call_depth -= 1
@@ -1058,7 +1059,10 @@ class Interp:
             f = f.parent
         if f is None:
             raise Unsupported('yield outside generator')
-        f.yields.append(v)
+        if isinstance(f.yields, SymSeq):
+            self.lib.m_list_append(self, f.yields, v)
+        else:
+            f.yields.append(v)
 
     def e_Yield(self, node, frame):
         v = self.eval(node.value, frame) if node.value is not None else None
